@@ -54,9 +54,17 @@ var (
 )
 
 func filterDependencies(n *component_definition.Property, metas []*component_definition.Meta) ([]*component_definition.Meta, error) {
-	//remove nil meta
+	//remove nil meta, and a candidate that several collectors handed in keeps its first place only
+	seen := make(map[*component_definition.Meta]struct{}, len(metas))
 	result := fas.Filter(metas, func(m *component_definition.Meta) bool {
-		return m != nil
+		if m == nil {
+			return false
+		}
+		if _, dup := seen[m]; dup {
+			return false
+		}
+		seen[m] = struct{}{}
+		return true
 	})
 	if len(result) == 0 {
 		return nil, errors.Errorf("inject '%s' not found available components", n)
